@@ -32,6 +32,9 @@
                                      the marker's OWN denom and validateSendDenom looks at the marker of
                                      the coin's denom; a scope denom is never a marker denom, so neither
                                      rule reads the status ([mk_status], [mk_forced] are carried as data).
+      x/marker/keeper/params.go      ValidateUnrestictedDenom (as the fact that it refuses every scope
+                                     denom), msg_server.go AddMarker / AddFinalizeActivateMarker (refused),
+                                     Mint / Transfer / Withdraw of a denom without marker (refused)
       x/sanction/keeper/send_restriction.go  a sanctioned sender cannot send (no bypass is ever set)
       x/quarantine/keeper/send_restriction.go, keeper.go (AddQuarantinedCoins, AcceptQuarantinedFunds,
                                      SetOptIn/SetOptOut, SetAutoResponse), msg_server.go (OptIn, OptOut,
@@ -50,9 +53,11 @@
                                      must be after the block time), DeleteGrant (error when absent),
                                      GetAuthorization (absent when expiration is BEFORE the block time),
                                      GenericAuthorization.Accept, CountAuthorization.Accept (error when
-                                     <= 0; Delete at 1; otherwise Updated with one use less)
+                                     <= 0; Delete at 1; otherwise Updated with one use less),
+                                     BeginBlocker / DequeueAndDeleteExpiredGrants (op OPrune)
 
-    Assumed about the outside: scope denoms have no marker of their own and no holds/vesting on them;
+    Assumed about the outside: the unrestricted-denom expression is the default one (no '/') and governance
+    creates no marker on a scope denom; scope denoms carry no holds/vesting;
     quarantine records have one sender (SendCoins and the one-input MsgMultiSend never produce more);
     Decline and auto-decline only set a flag that no transfer reads (not modelled).  SendCoins over
     several denoms is modelled as the restriction evaluated once followed by one move per denom:
@@ -630,7 +635,14 @@ Inductive op :=
 | OOptIn (a : addr) | OOptOut (a : addr)                 (* quarantine MsgOptIn / MsgOptOut *)
 | OAutoAccept (to from : addr) (on : bool)               (* MsgUpdateAutoResponses: accept / unspecified *)
 | OAccept (to : addr) (froms : list addr) (permanent : bool)   (* quarantine MsgAccept *)
-| ODecline (to : addr) (froms : list addr).              (* quarantine MsgDecline: a flag only *)
+| ODecline (to : addr) (froms : list addr)               (* quarantine MsgDecline: a flag only *)
+(* the marker module pointed at a scope token's denom: MsgAddMarker / MsgAddFinalizeActivateMarker with
+   denom = the scope's denom, then MsgMint / MsgTransfer (forced) / MsgWithdraw of that denom *)
+| OMarkerAdd (a : addr) (d : sid) (supply : Z) (activate : bool)
+| OMarkerMint (a : addr) (d : sid) (amt : Z)
+| OMarkerTransfer (a from to : addr) (d : sid)
+| OMarkerWithdraw (a to : addr) (d : sid)
+| OPrune.                                                (* authz BeginBlocker of a block at the current time *)
 
 Definition actx0 (s : state) : actx := {| a_grants := grants s; a_cache := [] |}.
 (** The message is done: the authz store as the signer checks left it. *)
@@ -897,6 +909,15 @@ Definition step_opt (s : state) (o : op) : option state :=
   | OAutoAccept to from on => Some (with_qauto s (set_auto (qauto s) to from on))
   | OAccept to froms permanent => step_accept s to froms permanent
   | ODecline to froms => if is_nil froms then None else Some s
+  (* Keeper.ValidateUnrestictedDenom: a scope denom ("nft/scope1...") contains a '/', which the
+     unrestricted-denom expression does not allow, so no marker is ever created on it; the marker
+     messages that name the denom then find no marker. *)
+  | OMarkerAdd _ _ _ _ | OMarkerMint _ _ _ | OMarkerTransfer _ _ _ _ | OMarkerWithdraw _ _ _ => None
+  (* x/authz BeginBlocker (DequeueAndDeleteExpiredGrants): on a chain every block first deletes the
+     grants whose expiration is before the block time (the queue iterator ends at the block time's key
+     prefix followed by a zero byte, which excludes the entries of the block time itself): exactly the
+     grants GetAuthorization no longer returns. *)
+  | OPrune => Some (with_grants s (filter (fun g => negb (expired (now s) g)) (grants s)))
   end.
 
 Definition step (s : state) (o : op) : state * bool :=
@@ -914,6 +935,7 @@ Definition signers_of (o : op) : list addr :=
   | OWrite sg _ _ _ _ _ _ | OUpdate sg _ _ | OMigrate sg _ _ | ODelete sg _ | OAddData sg _ _ => sg
   | OSend from _ _ _ | OMultiSend from _ => [from]
   | OAccept to _ _ => [to]
+  | OMarkerAdd a _ _ _ | OMarkerMint a _ _ | OMarkerTransfer a _ _ _ | OMarkerWithdraw a _ _ => [a]
   | _ => []
   end.
 Definition kind_of (o : op) : option kind :=
